@@ -771,7 +771,7 @@ def build(case, ctx):
 
 # ------------------------------------------------------------------ enumeration of cases
 
-H3_PREFIXES = ["fresh", "ctrl", "ctrl_dyn", "req_done", "req_open", "req_trailers", "req_blocked"]
+H3_PREFIXES = ["fresh", "ctrl", "ctrl_dyn", "req_done", "req_open", "req_trailers", "req_blocked", "ctrl_stopped"]
 H0_PREFIXES = ["fresh", "req_done", "req_open"]
 
 
